@@ -55,7 +55,17 @@ def gen_seed_int(rng):
 def gen_consumer(rng):
     """A component that is handed a seed and must then follow CobaRandom(seed): SafeLearner sampling from a learner's PMF (optionally
     wrapped around another SafeLearner that is used as well), SequentialCB playing a PMF learner."""
-    k = weighted(rng, [("consumer_safe", 2), ("consumer_seqcb", 1), ("consumer_modstream", 1.5)])
+    k = weighted(rng, [("consumer_safe", 2), ("consumer_seqcb", 1), ("consumer_modstream", 1.5), ("consumer_pipes_shuffle", 1.5),
+                       ("consumer_pipes_reservoir", 0.7), ("consumer_pmfpredictor", 1)])
+    if k in ("consumer_pipes_shuffle", "consumer_pipes_reservoir"):
+        # a seeded pipes filter is a function of (seed, input) at EVERY read of the same object, of a pickled copy and of a fresh object
+        if k == "consumer_pipes_reservoir":
+            # (ordinary seeds only: at the boundary state u == 0.0 Algorithm L itself takes log(0) / divides by zero - Reservoir's own defect,
+            #  DESIGN 10.8 (4), not a statement about CobaRandom)
+            return [k, [1 + rng.randrange(10 ** 4), 2 + rng.randrange(7), 1 + rng.randrange(3), rng.choice([None, 1, 2, 3])]]
+        return [k, [abs(gen_seed_int(rng)), 2 + rng.randrange(7), 1 + rng.randrange(3), rng.choice([None, 1, 2, 3])]]      # (these filters only take seeds >= 0)
+    if k == "consumer_pmfpredictor":
+        return [k, [gen_seed_int(rng), 2 + rng.randrange(5), rng.random() < 0.5]]
     if k == "consumer_modstream":
         # the module-level generator is a CobaRandom(seed) too (coba.random.seed): what coba itself does in between - running an experiment,
         # downloading a data set - must not change what the user draws from it afterwards
@@ -91,6 +101,34 @@ def do_consumer(call):
             out.append(act)
             sl.learn(None, act, 1.0, p)
         return out
+    if m in ("consumer_pipes_shuffle", "consumer_pipes_reservoir"):
+        import pickle
+        import coba.pipes as P
+        seed, n, reads, count = a
+        mk = (lambda: P.Shuffle(seed)) if m == "consumer_pipes_shuffle" else (lambda: P.Reservoir(count, seed=seed))
+        f = mk()
+        items = list(range(n))
+        out = [list(f.filter(list(items))) for _ in range(reads)]
+        it = iter(f.filter(list(items)))        # a read that is abandoned after its first item
+        next(it, None)
+        del it
+        out.append(list(f.filter(list(items))))
+        out.append(list(pickle.loads(pickle.dumps(f)).filter(list(items))))
+        out.append(list(mk().filter(list(items))))
+        return out
+    if m == "consumer_pmfpredictor":
+        from coba.learners.utilities import PMFPredictor, PMFInfoPredictor
+        seed, n, info = a
+        t = [0]
+        if info:
+            pr = PMFInfoPredictor(lambda c, A: (_pmf(t[0]), {}), seed)
+        else:
+            pr = PMFPredictor(lambda c, A: _pmf(t[0]), seed)
+        out = []
+        for i in range(n):
+            t[0] = i
+            out.append(pr.predict(None, acts)[0])
+        return out
     import coba as cb
     if m == "consumer_modstream":
         import coba.random as cr
@@ -125,6 +163,14 @@ def consumer_expected(call):
     seed, n = call[1][0], call[1][1]
     if call[0] == "consumer_modstream":
         return CobaRandom(seed).randoms(n)
+    if call[0] == "consumer_pipes_shuffle":
+        return [CobaRandom(seed).shuffle(list(range(n)))] * (call[1][2] + 3)
+    if call[0] == "consumer_pipes_reservoir":
+        import coba.pipes as P
+        count = call[1][3]
+        if count is None:
+            return [CobaRandom(seed).shuffle(list(range(n)))] * (call[1][2] + 3)
+        return [list(P.Reservoir(count, seed=seed).filter(list(range(n))))] * (call[1][2] + 3)     # (self-consistency only)
     g = CobaRandom(seed)
     return [g.choicew([0, 1, 2], _pmf(t))[0] for t in range(n)]
 
